@@ -135,7 +135,21 @@ def gen_states(rng, tier):
     d = scratch()
     for fmt, data in (("text", t), ("bin", b)):
         if tier == "quick":
-            offs = sorted(set([0, 1, 3, 4, 5, 8, len(data) - 1, len(data)] + [rng.randint(0, len(data)) for _ in range(40)]))
+            offs = set([0, 1, 3, 4, 5, 8, len(data) - 1, len(data)] + [rng.randint(0, len(data)) for _ in range(40)])
+            if fmt == "text":
+                # stratified: every top-level block of the state (module header, each variable, each bias) is cut just after
+                # its opening brace, somewhere inside, and just before its closing brace
+                depth = 0; start = None
+                for i, ch in enumerate(data):
+                    if ch == 0x7b:
+                        depth += 1
+                        if depth == 1:
+                            start = i
+                    elif ch == 0x7d:
+                        depth -= 1
+                        if depth == 0 and start is not None and i > start + 2:
+                            offs.update([start + 1, rng.randint(start + 2, i - 1), rng.randint(start + 2, i - 1), i])
+            offs = sorted(offs)
             flips = 25
         else:
             offs = list(range(0, len(data) + 1))
